@@ -24,8 +24,9 @@ def gen_cases(spec, cfg, workers=8, timeout=1800, key_extra="", env=None, simula
     return vlib.cached_cases([spec, cfg], gen, extra=key_extra + str(simulate) + str(depth) + str(seed))
 
 
-def validate(spec, trace_path, chk, tag, domain_events=None, timeout=3600, sig_fn=None, xmx="4g"):
-    """Validate one ndjson trace with a trace spec. Mismatching events become violations."""
+def validate(spec, trace_path, chk, tag, timeout=3600, sig_fn=None, xmx="4g", classes=None):
+    """Validate one ndjson trace with a trace spec. Mismatching events (index, class) become
+    violations when their class is in `classes` (None = all). Returns the raw mismatch list."""
     r = vlib.validate_trace(spec, trace_path, tag, timeout=timeout, xmx=xmx)
     if not r.ok:
         raise ToolError("trace validation crashed (%s on %s):\n%s" % (spec, trace_path, r.error or r.out[-3000:]))
@@ -41,12 +42,17 @@ def validate(spec, trace_path, chk, tag, domain_events=None, timeout=3600, sig_f
         raise ToolError("trace not fully consumed: %s (%s)" % (consumed, trace_path))
     chk.traces += 1
     chk.evaluations += consumed[1]
+    out = []
     if mism:
         evs = list(vlib.read_ndjson(trace_path))
-        for i in mism[:200]:
+        for i, cls in mism:
             e = evs[i - 1]
-            sig = sig_fn(e) if sig_fn else {"event": e.get("k")}
-            chk.violation(sig, "%s: event %d of %s rejected by the specification" % (spec, i, os.path.basename(trace_path)), e)
+            out.append((i, cls, e))
+            if classes is None or cls in classes:
+                sig = sig_fn(e) if sig_fn else {"event": e.get("k")}
+                sig["class"] = cls
+                chk.violation(sig, "%s: event %d of %s rejected by the specification (%s)" % (spec, i, os.path.basename(trace_path), cls), e)
+    chk.raw_mismatches = getattr(chk, "raw_mismatches", []) + out
     return r
 
 
@@ -61,14 +67,14 @@ def shard_file(path, n, outdir, prefix):
     return [o.name for o in outs]
 
 
-def validate_parallel(spec, paths, chk, tag, sig_fn=None, jobs=6, timeout=3600, xmx="3g"):
+def validate_parallel(spec, paths, chk, tag, sig_fn=None, jobs=6, timeout=3600, xmx="3g", classes=None):
     """validate several trace files with parallel TLC processes; merge results in order"""
     import copy
     results = []
     def one(p):
         sub = vlib.Check(chk.pid, chk.tier)
         sub.known = chk.known
-        validate(spec, p, sub, tag, sig_fn=sig_fn, timeout=timeout, xmx=xmx)
+        validate(spec, p, sub, tag, sig_fn=sig_fn, timeout=timeout, xmx=xmx, classes=classes)
         return sub
     with cf.ThreadPoolExecutor(max_workers=jobs) as ex:
         for sub in ex.map(one, paths):
@@ -77,6 +83,7 @@ def validate_parallel(spec, paths, chk, tag, sig_fn=None, jobs=6, timeout=3600, 
             chk.traces += sub.traces
             chk.evaluations += sub.evaluations
             chk.violations += sub.violations
+            chk.raw_mismatches = getattr(chk, 'raw_mismatches', []) + getattr(sub, 'raw_mismatches', [])
             for k in sub.known_hit:
                 if k not in chk.known_hit:
                     chk.known_hit.append(k)
